@@ -29,6 +29,9 @@ logger = get_logger(__name__)
 # Connection timeout in seconds
 REQUEST_TIMEOUT = 30.0
 
+# Maximum size of the <META> field of a response header, in bytes
+MAX_META_SIZE = 1024
+
 
 class GeminiServerProtocol(asyncio.Protocol):
     """Server-side protocol for handling Gemini and Titan requests.
@@ -82,6 +85,8 @@ class GeminiServerProtocol(asyncio.Protocol):
         self.peer_name: tuple[str, int] | None = None
         self.request_start_time: float | None = None
         self.timeout_handle: asyncio.TimerHandle | None = None
+        # Exactly one response per connection: set once anything was written
+        self.response_sent = False
 
         # Titan-specific state
         self.titan_request: TitanRequest | None = None
@@ -243,8 +248,25 @@ class GeminiServerProtocol(asyncio.Protocol):
         Args:
             response: The response to send.
         """
-        if not self.transport:
+        if not self.transport or self.response_sent:
             return
+
+        # Encode header and body completely before anything is written, so a
+        # response is either sent whole or replaced by an error response.
+        try:
+            header, body = self._encode_response(response)
+        except Exception as e:
+            logger.error(
+                "invalid_response",
+                client_ip=self.peer_name[0] if self.peer_name else "unknown",
+                error=str(e),
+                exception_type=type(e).__name__,
+            )
+            response = GeminiResponse(
+                status=StatusCode.TEMPORARY_FAILURE.value,
+                meta="Server error: invalid response",
+            )
+            header, body = self._encode_response(response)
 
         # Calculate request duration
         duration_ms = 0.0
@@ -257,24 +279,61 @@ class GeminiServerProtocol(asyncio.Protocol):
             client_ip=self.peer_name[0] if self.peer_name else "unknown",
             status=response.status,
             path=response.url or "unknown",
-            body_size=len(response.body) if response.body else 0,
+            body_size=len(body),
             duration_ms=round(duration_ms, 2),
         )
 
-        # Build response header: <STATUS><SPACE><META><CRLF>
-        header = f"{response.status} {response.meta}\r\n"
-        self.transport.write(header.encode("utf-8"))
+        # Response header: <STATUS><SPACE><META><CRLF>
+        self.response_sent = True
+        self.transport.write(header)
 
         # Send body if present (only for 2x success responses)
-        # FIX: Handle both text (str) and binary (bytes) content
-        if response.body:
-            if isinstance(response.body, bytes):
-                self.transport.write(response.body)
-            else:
-                self.transport.write(response.body.encode("utf-8"))
+        if body:
+            self.transport.write(body)
 
         # Close connection (Gemini/Titan: one request per connection)
         self.transport.close()
+
+    @staticmethod
+    def _encode_response(response: GeminiResponse) -> tuple[bytes, bytes]:
+        """Encode a response into header and body bytes.
+
+        The header is a two-digit status, one space, a meta string without
+        CR/LF of at most MAX_META_SIZE bytes, and CRLF. A body is only sent
+        with 2x (success) responses.
+
+        Args:
+            response: The response to encode.
+
+        Returns:
+            Tuple of (header_bytes, body_bytes).
+
+        Raises:
+            ValueError: If the status code is not a valid Gemini status.
+        """
+        status = response.status
+        if not isinstance(status, int) or not (10 <= status <= 69):
+            raise ValueError(f"Invalid status code: {status!r}")
+
+        # Meta must be a single line: neutralize CR/LF and limit its size
+        meta = str(response.meta).replace("\r", " ").replace("\n", " ")
+        meta_bytes = meta.encode("utf-8", errors="replace")
+        if len(meta_bytes) > MAX_META_SIZE:
+            meta_bytes = (
+                meta_bytes[:MAX_META_SIZE]
+                .decode("utf-8", errors="ignore")
+                .encode("utf-8")
+            )
+        header = f"{status} ".encode("ascii") + meta_bytes + CRLF
+
+        body = b""
+        if 20 <= status < 30 and response.body:
+            if isinstance(response.body, bytes):
+                body = response.body
+            else:
+                body = response.body.encode("utf-8")
+
+        return header, body
 
     def _send_error_response(self, status: StatusCode, message: str) -> None:
         """Send an error response and close the connection.
@@ -291,7 +350,11 @@ class GeminiServerProtocol(asyncio.Protocol):
 
     def _handle_timeout(self) -> None:
         """Handle request timeout."""
-        if self.transport and not self.transport.is_closing():
+        if (
+            self.transport
+            and not self.transport.is_closing()
+            and not self.response_sent
+        ):
             if self.request_start_time:
                 duration = time.time() - self.request_start_time
             else:
@@ -303,6 +366,7 @@ class GeminiServerProtocol(asyncio.Protocol):
             )
             # Send timeout response
             response = "40 Request timeout\r\n"
+            self.response_sent = True
             self.transport.write(response.encode("utf-8"))
             self.transport.close()
 
@@ -429,7 +493,8 @@ class GeminiServerProtocol(asyncio.Protocol):
 
             if not allow:
                 # Middleware rejected request - send error response
-                if self.transport and error_response:
+                if self.transport and error_response and not self.response_sent:
+                    self.response_sent = True
                     self.transport.write(error_response.encode("utf-8"))
                     self.transport.close()
                 return
